@@ -12,6 +12,8 @@ word `r` of `Op.set/setX/setNx` (what the private random source returns); every 
 quantifies over all of them.
 -/
 import Golib.Proof.C02Refine
+import Golib.Proof.C02Cmp
+import Golib.Gen.FactsC02
 
 namespace Golib.C02
 
@@ -122,6 +124,29 @@ theorem c02_level_bounds (cfg : Cfg K V) (hc : TotalCmp cfg.cmp) (hf : cfg.fixed
   rcases h2 with h | ⟨_, rfl⟩
   · exact h.lvl.2
   · simp [SL.zero]
+
+/-- The comparators the harness instantiates the theorems with (built-in order on int and on
+strings = bytewise lexicographic, modular-then-value, length-then-bytes, and the reverse of any
+total order) satisfy the total-order laws, so the theorems above apply to every driven list. -/
+theorem c02_harness_comparators_total :
+    TotalCmp cmpInt ∧ TotalCmp cmpBytes ∧ TotalCmp cmpMod3 ∧ TotalCmp cmpLen ∧
+    (∀ {K : Type} {cmp : K → K → Int}, TotalCmp cmp → TotalCmp (fun a b => cmp b a)) :=
+  ⟨cmpInt_total, cmpBytes_total, cmpMod3_total, cmpLen_total, fun h => h.reverse⟩
+
+/-- What the hand-written model takes from the source text, re-extracted from /repo by go/ast
+on every run (`Golib/Gen/FactsC02.lean`): the level constant, the body of `randomLevel`, and
+which methods start with the `s.len == 0` guard, the `s.head.next == nil` guard (the F1 repair
+of `Clear`; `RangeWithStart` of `SkipList` carries the `len` guard, that of `SkipListWithCmp`
+does not) and `lazyInit`. -/
+theorem c02_facts :
+    Golib.Gen.C02.extractorOK = true ∧ Golib.Gen.C02.maxLevel = maxLevel ∧
+    Golib.Gen.C02.lenGuard = ["All", "Head", "Keys", "Range", "RangeWithStart", "Values"] ∧
+    Golib.Gen.C02.lenGuardCmp = ["All", "Head", "Keys", "Range", "Values"] ∧
+    Golib.Gen.C02.nilGuard = ["Clear"] ∧ Golib.Gen.C02.nilGuardCmp = [] ∧
+    Golib.Gen.C02.lazyInit = ["set"] ∧ Golib.Gen.C02.lazyInitCmp = [] ∧
+    Golib.Gen.C02.randomLevelBody =
+      "{ k := r.Uint64() & zoneMask return ((maxLevel - bits.Len64(k)) & levelMask) + 1 }" := by
+  decide
 
 /-! ### non-vacuity -/
 
